@@ -271,6 +271,8 @@ def run(ctx):
         mm = pat_suite.first_mismatch(impl, model) if model is not None else None
         if prob:
             ctx.violation("C08:elementwise:" + e[1], prob, {"suite": "pat", "script": pat_suite.script_text(script), "impl": impl, "model": model})
+        elif mm and pat_suite.inexact_at_discontinuity(script):
+            ctx.count("not-compared:inexact-float-at-discontinuity")      # decided by the exact oracle above
         elif mm:
             ctx.disagreement("case %s: impl %r vs model %r" % (cid, mm[1], mm[2]),
                              {"suite": "pat", "script": pat_suite.script_text(script), "impl": impl, "model": model})
